@@ -128,7 +128,7 @@ var routes = []struct {
 }
 var pathVals = []string{"1", "x", "-1", "2147483648", "a%2Fb", "%zz", "%", "%00", "a b", "é", "", ":check", "a:b", "..", "%2e%2e", strings.Repeat("9", 40), "ONE", "1.5"}
 var queryKeys = []string{"i32", "i64", "u32", "u64", "b", "s", "by", "f", "d", "e", "ri", "rs", "re", "msi[k]", "mis[1]", "mbe[true]", "n.x", "n.deep.z", "oa", "ob", "on.x", "opt", "wi", "ws", "fm", "rw",
-	"snakeCaseName", "customJSON", "nope", "n", "n.nope", "a[b][c]", "x[", "[", "", "_metadata[k]", "i32.x", "ri[0]", "%zz", "é",
+	"snakeCaseName", "customJSON", "nope", "n", "n.nope", "a[b][c]", "x[", "[", "", "page]", "]", "x]y]", "][", "a[]", "[]", "%5D", "msi]", "msi[k]]", "msi[[k]", "_metadata[k]", "i32.x", "ri[0]", "%zz", "é",
 	// a field path that continues BEHIND a map, a list, a scalar, an enum, a wrapper or a well-known type
 	"msi.k", "mis.1", "mbe.true", "msi.k.x", "ri.0", "rs.x", "re.ONE", "s.x", "e.x", "by.x", "wi.value", "wi.x", "ws.value.x", "fm.paths", "fm.paths.x", "n.x.y", "n.deep.z.w", "oa.x", "on.x.y", "rw.value"}
 var queryVals = []string{"1", "-1", "x", "", "true", "ONE", "BOGUS", "1e40", "NaN", "QUJD", "!!!", "4294967297", "18446744073709551616", "a,b", "%zz", "\x00", "é", strings.Repeat("1", 50)}
